@@ -75,10 +75,9 @@ VARIABLES blk,        \* current block height
           req,        \* member -> block it asked the block counter for (-1: none)
           nsub,       \* member -> number of on-chain submission calls it made
           res,        \* member -> result of the call: "none" | "nil" | "err"
-          observed,   \* member -> it has seen that somebody else succeeded
-          subAt       \* member -> block height at its (last) submission call (-1: none)
+          observed    \* member -> it has seen that somebody else succeeded
 
-vars == <<blk, done, winner, pending, pc, ref, req, nsub, res, observed, subAt>>
+vars == <<blk, done, winner, pending, pc, ref, req, nsub, res, observed>>
 
 Running  == {"waiting", "monitoring"}
 Terminal == {"rejected", "failed", "left", "submitted", "timedout"}
@@ -102,7 +101,6 @@ Init ==
     /\ nsub = [i \in Controlled |-> 0]
     /\ res = [i \in Controlled |-> "none"]
     /\ observed = [i \in Controlled |-> FALSE]
-    /\ subAt = [i \in Controlled |-> -1]
 
 ---------------------------------------------------------------------------
 \* Member i enters the submission function.  `enough` = the signature set
@@ -146,7 +144,7 @@ Begin(i, enough, f) ==
                /\ ref' = [ref EXCEPT ![i] = r]
                /\ req' = [req EXCEPT ![i] = Slot(i, r)]
                /\ UNCHANGED <<res, observed>>
-    /\ UNCHANGED <<blk, done, winner, pending, nsub, subAt>>
+    /\ UNCHANGED <<blk, done, winner, pending, nsub>>
 
 \* The block counter releases member i's wait: the member submits, unless it
 \* finds its context cancelled.  `f` = fault of the submission call.
@@ -156,7 +154,6 @@ SlotReached(i, f) ==
     /\ f \in (Faults \cap {"none", "submit", "status"})
     /\ (f = "status") => Proto = "relayEntry"
     /\ nsub' = [nsub EXCEPT ![i] = @ + 1]
-    /\ subAt' = [subAt EXCEPT ![i] = blk]
     /\ LET accepted == ~done /\ f = "none" IN
        /\ IF accepted
              THEN /\ done' = TRUE /\ winner' = i
@@ -198,7 +195,7 @@ Observe(i) ==
     /\ res' = [res EXCEPT ![i] = "nil"]
     /\ observed' = [observed EXCEPT ![i] = TRUE]
     /\ pending' = pending \ {i}
-    /\ UNCHANGED <<blk, done, winner, ref, req, nsub, subAt>>
+    /\ UNCHANGED <<blk, done, winner, ref, req, nsub>>
 
 \* relayEntry: the timeout block's waiter fires.
 RelayTimeout(i) ==
@@ -208,14 +205,14 @@ RelayTimeout(i) ==
     /\ pc' = [pc EXCEPT ![i] = "timedout"]
     /\ res' = [res EXCEPT ![i] = "err"]
     /\ pending' = pending \ {i}
-    /\ UNCHANGED <<blk, done, winner, ref, req, nsub, observed, subAt>>
+    /\ UNCHANGED <<blk, done, winner, ref, req, nsub, observed>>
 
 \* Another operator's member succeeds at the current block.
 Compete ==
     /\ ~done
     /\ done' = TRUE
     /\ pending' = { j \in Controlled : pc[j] \in Running }
-    /\ UNCHANGED <<blk, winner, pc, ref, req, nsub, res, observed, subAt>>
+    /\ UNCHANGED <<blk, winner, pc, ref, req, nsub, res, observed>>
 
 \* Blocks are mined.  Only heights at which something can change are visited:
 \* the next block and the neighbourhood of every requested slot / the timeout.
@@ -226,7 +223,7 @@ JumpTargets ==
 
 Advance ==
     /\ \E b \in JumpTargets : b > blk /\ b <= MaxBlock /\ blk' = b
-    /\ UNCHANGED <<done, winner, pending, pc, ref, req, nsub, res, observed, subAt>>
+    /\ UNCHANGED <<done, winner, pending, pc, ref, req, nsub, res, observed>>
 
 \* named top-level disjuncts (coverage)
 DoBegin       == \E i \in Controlled, e \in BOOLEAN, f \in AllFaults : Begin(i, e, f)
@@ -256,9 +253,16 @@ SlotsInjective ==
 RelayBeforeTimeout ==
     Proto = "relayEntry" => \A i \in 1..N : Slot(i, Start) < Start + Timeout
 
-\* C47 (3a): nobody submits before its own slot.
+\* C47 (3a): nobody submits before its own slot: a submission call happens
+\* at a block height that is at least the slot computed from the member's
+\* reference block.
 NoSubmitBeforeSlot ==
-    \A i \in Controlled : nsub[i] > 0 => (ref[i] >= 0 /\ subAt[i] >= Slot(i, ref[i]))
+    [][\A i \in Controlled : nsub'[i] > nsub[i] =>
+            (ref[i] >= 0 /\ req[i] = Slot(i, ref[i]) /\ blk >= Slot(i, ref[i]))]_vars
+
+\* what a member asked the block counter for is its slot
+RequestIsSlot ==
+    \A i \in Controlled : req[i] >= 0 => (ref[i] >= 0 /\ req[i] = Slot(i, ref[i]))
 
 \* C47 (3b), state form: a member that has seen somebody else succeed before
 \* it reached its slot never submitted.  (monitoring members of the relay
